@@ -29,7 +29,7 @@ STRENGTHENED = {
     "C15-agent3-1": "would have been MISSED (the sound error bound n*tol*d/(1-d) is far too loose); caught after the residual rule (OPTIMAL => residual of one sweep <= 10 tol; the shipped rule stays below 2.5 tol on 40 000 random graphs) and hub-and-spoke graphs up to 70 nodes were added",
     "C15-agent3-2": "MISSED at first (nodes were always a list); caught after nodes / neighbours are also passed as tuples, iterators and generators",
     "C19-agent3-2": "would have been MISSED (exponential cooling was always given as a float); caught after schedule objects (incl. exponential_cooling) are built once per case and shared by its runs",
-    "C17-agent3-1": "MISSED at first; caught (1 hit in 12 k quick runs - marginal, thorough is the reliable tier) after duplicated columns and pools without unit columns were generated",
+    "C17-agent3-1": "MISSED at first; after duplicated columns and pools without unit columns were generated it was caught by a single run out of 12 k, and a later change of the generator lost it again (found by the sensitivity self-test); now custom branch-and-price cases are 5 k of the 16 k quick runs and repeated columns get a demand that is not a multiple of their yield: 4-9 hits per quick run at seeds 0-2",
     "C17-agent3-2": "would have been MISSED (gap_tol was never passed); caught after solve_bp also runs with gap_tol 0.01 / 0.04, values that cannot legitimise a non-minimal plan of <= 20 rolls",
     "C15-agent4-3": "would have been MISSED (every case built a fresh lambda); caught after 20 % of the cases use ONE module-level call-back object and the node sequence 0..n-1, as earlier cases of the same worker did",
     "C19-agent4-3": "would have been MISSED (alns weights were never passed); caught after caller-supplied weight lists, shared by the runs of a case, were added",
